@@ -586,6 +586,7 @@ def run(ctx):
     joinlogic.join_logical_state(ctx, r10)
     joinlogic.induced_join_state(ctx, r10)
     joinlogic.possible_route(ctx, r10)
+    joinlogic.route_cache_covers_inbound(ctx, r10)
     r10.floor(8)
 
 
